@@ -142,7 +142,7 @@ def merged_len(outs, status):
 
 
 # ------------------------------------------------------------------------------------------------ native replay
-def native_call(src, cfg, calldata: bytes, value=0, evm_version="cancun", storage=None):
+def native_call(src, cfg, calldata: bytes, value=0, evm_version="cancun", storage=None, with_logs=False):
     """run the real compiler output in pyrevm: returns ("return"|"revert", bytes)"""
     import os
     import sys
@@ -161,9 +161,19 @@ def native_call(src, cfg, calldata: bytes, value=0, evm_version="cancun", storag
         env.set_balance(env.deployer, 10**30)
         try:
             out = env.message_call(c.address, data=calldata, value=value)
-            return "return", bytes(out)
+            res = ("return", bytes(out))
         except Exception as e:  # revert
-            return "revert", repr(e)[:200].encode()
+            res = ("revert", repr(e)[:200].encode())
+        if with_logs:
+            logs = []
+            try:
+                for lg in env.last_result.logs:
+                    tl, dat = lg.data
+                    logs.append(([int.from_bytes(bytes(t), "big") if not isinstance(t, int) else t for t in tl], bytes(dat)))
+            except Exception:
+                logs = None
+            return res + (logs,)
+        return res
     finally:
         os.chdir(cwd)
 
